@@ -2793,7 +2793,11 @@ theorem addEntry_append (acl : Acl) (e : Entry) (nm : List Ch) (hwf : EntryWF e)
       simp [h1, h2, h3]
     · simp [ha]
   have hvalid : newEntryValid acl e.type e.permset e.tag = true := by
+    have hsix : (e.type = typeAccess ∨ e.type = typeDefault ∨ e.type = typeAllow ∨ e.type = typeDeny ∨
+        e.type = typeAudit ∨ e.type = typeAlarm) = True := by
+      rcases hwf.type_ok with (h | h) | (h | h | h | h) <;> simp [h]
     unfold newEntryValid within
+    simp only [hsix, true_and]
     rcases hwf.type_ok with hp | hn
     · have hb := posix_bits hp
       have hpm : e.permset &&& permsPosix1e = e.permset := by
@@ -3332,8 +3336,9 @@ theorem WF_of_same (acl a' : Acl) (hwf : WF acl) (he : a'.entries = acl.entries)
 
 
 /-- What `acl_new_entry`'s checks establish about a new entry of one of the six types. -/
-theorem newEntryValid_spec (acl : Acl) (ty pm tg : Nat) (hty : IsPosix ty ∨ IsNfs4 ty)
+theorem newEntryValid_spec (acl : Acl) (ty pm tg : Nat)
     (hv : newEntryValid acl ty pm tg = true) :
+    (IsPosix ty ∨ IsNfs4 ty) ∧
     (IsUG tg ∨ tg = tagUserObj ∨ tg = tagGroupObj ∨
       (IsPosix ty ∧ (tg = tagMask ∨ tg = tagOther)) ∨ (IsNfs4 ty ∧ tg = tagEveryone)) ∧
     (if IsPosix ty then pm < 8 else pm &&& (permsNfs4 ||| inheritanceNfs4) = pm) ∧
@@ -3343,7 +3348,16 @@ theorem newEntryValid_spec (acl : Acl) (ty pm tg : Nat) (hty : IsPosix ty ∨ Is
     rcases h1 with h | h <;> rcases h2 with h' | h' | h' | h' <;> rw [h] at h' <;> revert h' <;> decide
   unfold newEntryValid within at hv
   simp only [Bool.and_eq_true, decide_eq_true_eq] at hv
-  obtain ⟨hfam, htag⟩ := hv
+  obtain ⟨hsix, hfam, htag⟩ := hv
+  have hty : IsPosix ty ∨ IsNfs4 ty := by
+    rcases hsix with h | h | h | h | h | h
+    · exact Or.inl (Or.inl h)
+    · exact Or.inl (Or.inr h)
+    · exact Or.inr (Or.inl h)
+    · exact Or.inr (Or.inr (Or.inl h))
+    · exact Or.inr (Or.inr (Or.inr (Or.inl h)))
+    · exact Or.inr (Or.inr (Or.inr (Or.inr h)))
+  refine ⟨hty, ?_⟩
   rcases hty with hp | hn
   · have hb := posix_bits hp
     simp only [hb.2, ne_eq, not_true_eq_false, if_false, hb.1, not_false_eq_true, if_true,
@@ -3423,10 +3437,10 @@ theorem family_of_types (acl : Acl) (hwf : WF acl) (m : Nat) (hm : acl.types &&&
     _ = (acl.types &&& m) &&& e.type := by rw [Nat.and_assoc, Nat.and_comm e.type m, ← Nat.and_assoc]
     _ = e.type := by rw [hm, h1]
 
-/-- `archive_acl_add_entry` with one of the six ACL types and a C `int` id keeps an ACL
-well-formed, whatever its other arguments are. -/
+/-- `archive_acl_add_entry` with a C `int` id keeps an ACL well-formed, whatever its other
+arguments are (`acl_new_entry` refuses what does not fit). -/
 theorem addEntry_WF (acl : Acl) (hwf : WF acl) (ty pm tg : Nat) (id : Int) (nm : List Ch)
-    (hty : IsPosix ty ∨ IsNfs4 ty) (hid : -2147483648 ≤ id ∧ id ≤ 2147483647) :
+    (hid : -2147483648 ≤ id ∧ id ≤ 2147483647) :
     WF (addEntry acl ty pm tg id nm).1 := by
   have hexcl : ∀ t, IsPosix t → IsNfs4 t → False := by
     intro t h1 h2
@@ -3440,7 +3454,7 @@ theorem addEntry_WF (acl : Acl) (hwf : WF acl) (ty pm tg : Nat) (id : Int) (nm :
     simp only []
     by_cases hv : newEntryValid acl ty pm tg = true
     · simp only [hv, if_true]
-      obtain ⟨htag, hperm, hfam⟩ := newEntryValid_spec acl ty pm tg hty hv
+      obtain ⟨hty, htag, hperm, hfam⟩ := newEntryValid_spec acl ty pm tg hv
       rcases overwrite_spec ty pm tg id nm acl.entries with ⟨hn, hall⟩ | ⟨pre, x, post, hl, hx, hs⟩
       · -- a new entry at the end of the list
         simp only [hn]
